@@ -22,7 +22,13 @@
    = the tasks that arrived for queue n while the call was in progress.  [model_step] = one
    step of the operator: the worker of a queue executes its head ([SHead]), or a task that sits
    in no queue is handed to the task handler ([SLoose]: what the admission and conversion
-   webhook handlers do, with the empty name). *)
+   webhook handlers do, with the empty name).  [v0s] = the hooks with a v0 config.
+
+   Heads that are NOT executed (part 3, after seeded change C07-6).  taskHandleHookRun decides first
+   whether the hook is run ([should_run]: not for a Synchronization task - first context [c_sync] - of a
+   v0 hook or with ExecuteOnSynchronization = false, [t_exec]) and calls the combiner only behind the
+   gate [gate] (run, v1, not an ungrouped kubernetes Synchronization), with stopCombineFn
+   [stop_combine].  Spec vocabulary: [not_executed], [stop_rule], [exempt], [synchronization]. *)
 From Verif Require Import Common C07_Model C07_Spec C07_Proofs.
 
 (* the whole decidable predicate P of C07_Spec holds of the model on EVERY input
@@ -162,23 +168,62 @@ Print Assumptions C07_set_run_is_queue_run.
 (* ---------------------------------------------------------------- the task handler *)
 
 (* every step of the operator model - a worker executing the head of its queue (hook exit 0 or
-   not), or a queue-less task run by a webhook handler - meets the step predicate, from EVERY
+   not; the head a schedule / kubernetes Event / Synchronization task, executed or not, of a v0 or v1
+   hook), or a queue-less task run by a webhook handler - meets the step predicate, from EVERY
    state of the queue set; hence every session does *)
-Theorem C07_op_step_holds : forall qs st, P_step qs st (model_step qs st) = true.
+Theorem C07_op_step_holds : forall v0s qs st, P_step v0s qs st (model_step v0s qs st) = true.
 Proof. exact P_step_holds. Qed.
 Print Assumptions C07_op_step_holds.
 
-Theorem C07_op_session_holds : forall steps qs, P_session qs steps (run_session qs steps) = true.
+Theorem C07_op_session_holds : forall v0s steps qs, P_session v0s qs steps (run_session v0s qs steps) = true.
 Proof. exact P_session_holds. Qed.
 Print Assumptions C07_op_session_holds.
 
 (* the run of a task whose name no queue has: exactly one execution, with exactly the task's
-   own contexts, and the queue set afterwards IS the queue set before *)
-Theorem C07_webhook_run_leaves_queues : forall qs t ok,
+   own contexts (none if the task is not to be executed), and the queue set afterwards IS the queue
+   set before *)
+Theorem C07_webhook_run_leaves_queues : forall v0s qs t ok,
   ~ In (t_qn t) (map fst qs) ->
-  model_step qs (SLoose t ok) = mkSO [mkRun (t_hook t) (t_ctxs t)] ok qs.
+  model_step v0s qs (SLoose t ok)
+  = if should_run (mem_N (t_hook t) v0s) t then mkSO [mkRun (t_hook t) (t_ctxs t)] ok qs
+    else mkSO [] true qs.
 Proof. exact loose_run_leaves_queues. Qed.
 Print Assumptions C07_webhook_run_leaves_queues.
+
+(* a head that is NOT executed (a Synchronization of a v0 hook, or of a binding with
+   executeHookOnSynchronization: false), whatever stands behind it in whatever queue: no run, the
+   handler says Success, the head leaves - and that is ALL: the queue is exactly the tasks that stood
+   behind it, every other queue is what it was, nothing is merged *)
+Theorem C07_skipped_head_merges_nothing : forall v0s qs qn t rest ok,
+  get_by_name qn qs = Some (t :: rest) -> t_ty t = 0%N ->
+  should_run (mem_N (t_hook t) v0s) t = false ->
+  model_step v0s qs (SHead qn ok) = mkSO [] true (set_queue qn rest qs).
+Proof. exact skipped_head_merges_nothing. Qed.
+Print Assumptions C07_skipped_head_merges_nothing.
+
+(* the combiner is not even reached by a task that is not run, by a task of a v0 hook, by an ungrouped
+   kubernetes Synchronization: the handler leaves the task's metadata and every queue as they are *)
+Theorem C07_closed_gate_touches_nothing : forall v0 t qs,
+  should_run v0 t = false \/ v0 = true \/ (t_kube t = true /\ is_sync t = true /\ t_group t = 0%N) ->
+  snd (fst (handle_hook_run v0 t qs)) = t /\ snd (handle_hook_run v0 t qs) = qs.
+Proof. exact closed_gate_touches_nothing. Qed.
+Print Assumptions C07_closed_gate_touches_nothing.
+
+(* an EXECUTED head of a v1 hook, explicitly: one run with the compacted concatenation of the head's
+   and the block's contexts, the queue afterwards = (the head if the run failed) then everything
+   behind the block; the block ends where the stop rule says - in particular an executed
+   Synchronization head never takes in a Synchronization that is itself not to be executed *)
+Theorem C07_executed_head_block : forall v0s qs t rest ok,
+  wf_state qs = true -> get_by_name (t_qn t) qs = Some (t :: rest) -> t_ty t = 0%N ->
+  mem_N (t_hook t) v0s = false -> should_run false t = true ->
+  let o := model_step v0s qs (SHead (t_qn t) ok) in
+  let b := block (stop_rule t) t rest in
+  st_runs o = [mkRun (t_hook t) (if is_nil b then t_ctxs t else spec_compact (t_ctxs t ++ flat_map t_ctxs b))]
+  /\ map t_id (match get_by_name (t_qn t) (st_state o) with Some q => q | None => [] end)
+     = (if ok then [] else [t_id t]) ++ map t_id (after_block (stop_rule t) t rest)
+  /\ Forall (fun x => exempt x = false \/ synchronization t = false) b.
+Proof. exact executed_head_block. Qed.
+Print Assumptions C07_executed_head_block.
 
 (* non-vacuity: two queues; main (1) = hook 1, hook 1, hook 2; queue 2 = hook 1, hook 1.
    A validating webhook task of hook 1 (empty name, in no queue) arrives: hypothesis met, the
@@ -196,12 +241,50 @@ Example C07_set_hyp_met :
   /\ wf_state ex_qs = true
   /\ get_by_name 1 ex_qs = Some (snd (hd (0%N, []) ex_qs))
   /\ map (fun o => (st_runs o, st_success o, map (fun p => (fst p, map t_id (snd p))) (st_state o)))
-         (run_session ex_qs [SLoose ex_hook_task true; SHead 1 false; SHead 1 true; SHead 2 true])
+         (run_session [] ex_qs [SLoose ex_hook_task true; SHead 1 false; SHead 1 true; SHead 2 true])
      = [ ([mkRun 1 [mkCtx 9 0]], true, [(1, [11; 12; 13]); (2, [21; 22])]);
          ([mkRun 1 [mkCtx 1 0; mkCtx 2 0]], false, [(1, [11; 13]); (2, [21; 22])]);
          ([mkRun 1 [mkCtx 1 0; mkCtx 2 0]], true, [(1, [13]); (2, [21; 22])]);
          ([mkRun 1 [mkCtx 5 1]], true, [(1, [13]); (2, [])]) ]%N.
 Proof.
   split; [vm_compute; intros [H|[H|[]]]; discriminate|].
+  repeat split; vm_compute; reflexivity.
+Qed.
+
+(* non-vacuity for the heads that are not executed: the start-up of a v1 hook (1) with two kubernetes
+   bindings in group 1, the FIRST one a snapshot source only (executeHookOnSynchronization: false,
+   monitor 101), the second ordinary (monitor 102); behind them a schedule task of the same hook and a
+   task of hook 2 (a v0 hook: its Synchronization 15 is not executed either).  Head 11 meets the
+   hypothesis of C07_skipped_head_merges_nothing: no run, 12..16 stay; then 12 is executed (hypotheses
+   of C07_executed_head_block met) and takes in the schedule task 13, not 14 (hook 2); 14 runs alone
+   (v0), 15 is skipped, 16 (hook 1, ungrouped Synchronization) runs alone although 17 follows it. *)
+Definition ex_sync_qs : qset :=
+  [ (1, [ mkTaskK 11 1 0 true [mkCtxK 1 1 true] [101] 1 true 1 false;
+          mkTaskK 12 1 0 true [mkCtxK 2 1 true] [102] 1 true 1 true;
+          mkTask 13 1 0 true [mkCtx 3 0] [] 1;
+          mkTaskK 14 2 0 true [mkCtxK 4 0 false] [] 1 true 0 false;
+          mkTaskK 15 2 0 true [mkCtxK 5 0 true] [201] 1 true 0 false;
+          mkTaskK 16 1 0 true [mkCtxK 6 0 true] [103] 1 true 0 true;
+          mkTask 17 1 0 true [mkCtx 7 0] [] 1 ]) ]%N.
+
+Example C07_skip_hyp_met :
+  wf_state ex_sync_qs = true
+  /\ (exists rest, get_by_name 1 ex_sync_qs
+                   = Some ((mkTaskK 11 1 0 true [mkCtxK 1 1 true] [101] 1 true 1 false)%N :: rest))
+  /\ mem_N 1 [2]%N = false
+  /\ (let t16 := (mkTaskK 16 1 0 true [mkCtxK 6 0 true] [103] 1 true 0 true)%N in
+      t_kube t16 = true /\ is_sync t16 = true /\ t_group t16 = 0%N)
+  /\ should_run (mem_N 1 [2])%N (mkTaskK 11 1 0 true [mkCtxK 1 1 true] [101] 1 true 1 false)%N = false
+  /\ should_run false (mkTaskK 12 1 0 true [mkCtxK 2 1 true] [102] 1 true 1 true)%N = true
+  /\ map (fun o => (st_runs o, st_success o, map (fun p => (fst p, map t_id (snd p))) (st_state o)))
+         (run_session [2] ex_sync_qs [SHead 1 true; SHead 1 false; SHead 1 true; SHead 1 true; SHead 1 true; SHead 1 true])%N
+     = [ ([], true, [(1, [12; 13; 14; 15; 16; 17])]);
+         ([mkRun 1 [mkCtxK 2 1 true; mkCtx 3 0]], false, [(1, [12; 14; 15; 16; 17])]);
+         ([mkRun 1 [mkCtxK 2 1 true; mkCtx 3 0]], true, [(1, [14; 15; 16; 17])]);
+         ([mkRun 2 [mkCtx 4 0]], true, [(1, [15; 16; 17])]);
+         ([], true, [(1, [16; 17])]);
+         ([mkRun 1 [mkCtxK 6 0 true]], true, [(1, [17])]) ]%N.
+Proof.
+  split; [vm_compute; reflexivity|]. split; [eexists; vm_compute; reflexivity|].
   repeat split; vm_compute; reflexivity.
 Qed.
